@@ -750,8 +750,10 @@ int mpq_EGlpNumReadStrXc (mpq_t var,
 			 * exponent */
 			else
 			{
-				/* an exponent beyond this is not a number we could ever expand */
-				if (l_exp > 100000)
+				/* an exponent beyond five digits is not a number we could ever expand:
+				 * the writers format a number into a line buffer of ILL_namebufsize
+				 * (131072) characters */
+				if (l_exp > 9999)
 				{
 					n_char = 0;
 					goto DONE;
